@@ -56,6 +56,15 @@ CHECKS = [
              "derivatives sum to zero and match central differences.",
      "note": "Trusted: vlib/oracles/energies.py, ewald.py (numpy/scipy erfc; self-checked at start-up). Lattice periodicity is probed "
              "across faces only: the C sum is truncated around a minimum-image separation by design."},
+    {"id": "C04", "engine": "hypothesis-runner", "design_ref": "DESIGN.md §3 C04",
+     "technique": "exhaustive lattice scan + targeted property-based search (Hypothesis target()) + coordinate-descent refinement of q_true/q_bound; scripted-randomness threshold location for the acceptance; warning counter in instrumented runs",
+     "text": "Domination is searched with three generators sharing one oracle (q_true>0 => 0<q_true<=q_bound): a lattice scan of the "
+             "minimum-image cube (72^3 quick / 240^3 thorough x 3 directions x 2 signs), Hypothesis draws steered by target() with a "
+             "dedicated class at the edge mid-points where the supremum 0.99990 sits, and local refinement; covariance under box "
+             "length, axis permutation and charge magnitude is asserted. Largest ratio found is reported in evidence.",
+     "note": "Exploration: the supremum is a limit (s_d -> 0 at an edge mid-point), margin 1e-4; a bound prefactor >= 1.58355 cannot "
+             "be told from a valid one. True rate = MergedImageCoulombPotential at default Ewald parameters (tied to the converged "
+             "sum by C03); noise floor 1e-11/L^2."},
 ]
 
 _ALL = ["C%02d" % i for i in range(1, 21)]
